@@ -161,6 +161,7 @@ type runCtx struct {
 	types      []uint
 	selv       int
 	toolIn     []byte // what the tools get instead of the first item (chain-ue: the whole stream)
+	toolDesc   string
 }
 
 type chainDetail struct {
@@ -177,6 +178,8 @@ type chainDetail struct {
 	// Struct (ps-struct): PS[0] is a parameter set that is hostile by construction, PS[1] its benign partner; the dependent units always run
 	// (with the real sets as fallback for what the library rejects).
 	Struct bool `json:"structural,omitempty"`
+	// Desc (chain-ue): what was done to PS[0]; the items of the request are shared by several variants.
+	Desc string `json:"variant,omitempty"`
 }
 
 type witness struct {
